@@ -162,6 +162,10 @@ def boundary_cases():
             for val, ok in ((-0.1, False), (0.0, False), (5e-324, True), (1e-9, True), (1 - 1e-16, True), (1.0, False), (1.5, False),
                             (float("inf"), False), (float("-inf"), False), (float("nan"), False)):
                 cases.append((dict(b, **{nm: val}), ok, "%s=%r" % (nm, val)))
+    # integers beyond the float range (argparse's type=int has no size limit): still 'negative', still ValueError
+    for nm in ("seed", "width", "length", "max_reward"):
+        for val in (-2 ** 1024, -10 ** 400, -2 ** 63 - 1):
+            cases.append((dict(base, **{nm: val}), False, "%s=-huge(%d bits)" % (nm, val.bit_length())))
     # two parameters out of range at once (a check that combines parameters must still refuse)
     outside = {"seed": [-1, -7], "width": [-1, -2, 0], "length": [-1, -3, 0], "max_reward": [-1, 0],
                "p_robot": [-0.5, 1.0], "p_light": [0.0, 2.0], "p_tile": [-1.0, 1.0], "p_loose": [0.0, 1.5]}
